@@ -52,6 +52,28 @@ THEOREMS = [
     "SynKit.ReactorInv.pruneSpec_preserves_results",
     "SynKit.ReactorInv.pruneByAut_spec",
     "SynKit.ReactorInv.C05.statement_partial",
+    "SynKit.ReactorLink.glue_relabel",
+    "SynKit.ReactorLink.glue_wf",
+    "SynKit.ReactorLink.glue_iso_of_labels",
+    "SynKit.ReactorLink.glue_aut_iso",
+    "SynKit.SubgraphSearch.findComp_relabel",
+    "SynKit.SubgraphSearch.findComp_searchEquivariant",
+    "SynKit.ReactorInv.C05.glue_relabel_concrete",
+    "SynKit.ReactorInv.C05.patternEquivariant_concrete",
+    "SynKit.ReactorInv.C05.glueEquivariant_concrete",
+    "SynKit.ReactorInv.C05.results_list_invariant_concrete",
+    "SynKit.ReactorInv.C05.results_invariant_concrete",
+    "SynKit.ReactorInv.C05.results_invariant_concrete_all",
+    "SynKit.ReactorInv.prune_preserves_results_on",
+    "SynKit.ReactorInv.C05.glueAutInvariant_concrete",
+    "SynKit.ReactorInv.C05.prune_preserves_results_concrete",
+    "SynKit.ReactorInv.C05.prune_preserves_implicitResults",
+    "SynKit.ReactorInv.C05.statement_of_searchPrune_partial",
+    "SynKit.ReactorInv.C05.statement_concrete_partial",
+    "SynKit.ReactorInv.C05.statement_concrete_exhaustive",
+    "SynKit.ReactorInv.compSearch_sub",
+    "SynKit.ReactorInv.compSearch_equivariant",
+    "SynKit.ReactorInv.C05.statement_concrete",
 ]
 
 EXTRA = "c05_extra.txt"  # hand-written symmetric (template, substrate) pairs: name \t template \t substrate \t invert
